@@ -3,7 +3,7 @@
 
   `Model.Bech32.*` mirrors bitcoin/segwit_addr.py and bitcoin/bech32.py; `Spec.Bech32.*` is BIP173
   (validity predicate `Decodes` / `ValidSegwit`, reference encoding `encodeAddr`, checksum function).
-  Helper lemmas live in Proofs/Bech32{Code,Bits,Str,Addr,Detect}.lean.
+  Helper lemmas live in Proofs/Bech32{Code,Bits,Str,Addr,Detect,Bch,Case}.lean.
   Strings are lists of code points.  `hamming a b` counts the positions at which two strings differ;
   `substitute s subs` applies character substitutions; corruption is measured on the lowercase form
   (BIP173: "the lowercase form is used when determining a character's value"), a pure change of letter
@@ -12,6 +12,8 @@
   `detects_le4` (3 and 4 substitutions) is in Props/C11Native.lean.
 -/
 import BtcVerif.Proofs.Bech32Detect
+import BtcVerif.Proofs.Bech32Bch
+import BtcVerif.Proofs.Bech32Case
 
 namespace BtcVerif.C11
 open BtcVerif BtcVerif.Bech32
@@ -31,6 +33,38 @@ theorem polymod_affine :
       (∀ a b, T (a ^^^ b) = T a ^^^ T b) ∧
       (∀ a b, a < 2 ^ 30 → b < 2 ^ 30 → T a = T b → a = b) :=
   ⟨Bech32.T, polymodStep_eq, T_linear, fun _ _ ha hb h => T_injective ha hb h⟩
+
+/-- the checksum is the BIP173 BCH code over GF(32): on 5-bit values the 30-bit state of the code's
+    `polymod` is the residue of the message polynomial modulo
+    g(x) = x⁶ + {29}x⁵ + {22}x⁴ + {20}x³ + {21}x² + {29}x + {18} over GF(2)[a]/(a⁵+a³+1) -/
+theorem polymod_is_bch (vs : List Nat) (hvs : ∀ v ∈ vs, v < 32) :
+    Spec.Bech32.unpack (Model.Bech32.polymod vs) = Spec.Bech32.bchResidue vs := by
+  rw [Bech32.polymod_eq_spec]
+  exact unpack_polymod vs hvs
+
+/-- … hence a checksum verifies exactly when that residue is the constant polynomial 1 -/
+theorem verify_iff_bch (hrp : List Char) (data : List Nat) (hh : ∀ c ∈ hrp, c.toNat < 1024)
+    (hd : ∀ v ∈ data, v < 32) :
+    Model.Bech32.verifyChecksum hrp data = true ↔
+      Spec.Bech32.bchResidue (Spec.Bech32.hrpExpand hrp ++ data) = ⟨0, 0, 0, 0, 0, 1⟩ := by
+  have hvs : ∀ v ∈ Spec.Bech32.hrpExpand hrp ++ data, v < 32 := by
+    intro v hv
+    rcases List.mem_append.1 hv with hv | hv
+    · unfold Spec.Bech32.hrpExpand at hv
+      simp only [List.mem_append, List.mem_map, List.mem_singleton] at hv
+      rcases hv with (⟨c, hc, rfl⟩ | rfl) | ⟨c, _, rfl⟩
+      · have := hh c hc; omega
+      · omega
+      · omega
+    · exact hd v hv
+  rw [verifyChecksum_iff, hrpExpand_eq_spec, Bech32.polymod_eq_spec, ← unpack_polymod _ hvs]
+  have h1 : Spec.Bech32.unpack 1 = ⟨0, 0, 0, 0, 0, 1⟩ := by decide
+  have hlt : Spec.Bech32.polymod (Spec.Bech32.hrpExpand hrp ++ data) < 2 ^ 30 := by
+    rw [← Bech32.polymod_eq_spec, polymod_eq_run]
+    exact run_lt (by omega) (fun v hv => by have := hvs v hv; omega)
+  constructor
+  · intro h; rw [h, h1]
+  · intro h; rw [← h1] at h; exact unpack_inj hlt (by omega) h
 
 /-- the checksum appended by `bech32_create_checksum` verifies, for every prefix and all 5-bit data -/
 theorem checksum_verifies (hrp : List Char) (data : List Nat) (hd : ∀ v ∈ data, v < 32) :
@@ -82,6 +116,13 @@ theorem mixed_case_rejected (h s : List Char) (hl : ∃ c ∈ s, c.isLower = tru
   | some vp =>
     obtain ⟨v, p⟩ := vp
     exact absurd ⟨hl, hu⟩ ((decode_returns h s v p).1 hd).2.1
+
+/-- BIP173: the all-upper-case rendering of a valid address is valid and decodes to the same pair
+    (and validity in general depends on the string only through its lowercase form) -/
+theorem uppercase_accepted (h s : List Char) (v : Nat) (p : List Nat)
+    (hd : Model.Bech32.decode h s = some (v, p)) :
+    Model.Bech32.decode h (s.map Char.toUpper) = some (v, p) :=
+  (decode_returns h _ v p).2 (upper_decodes h s v p ((decode_returns h s v p).1 hd))
 
 /-! ### encoding -/
 
